@@ -5,8 +5,8 @@ import OpusProofs.GainPure
   An abstract sample semantics of the event log of one call.  Samples live in ANY type `α` with a multiplication
   (a commutative ring, an ordered field, or binary32 with its rounded `*`: every sample is multiplied at most once, so no
   ring law is needed).  A memory maps (buffer, index) to a sample.  The gain pass `.acc 11 p n` multiplies the `n`
-  samples at `p` by the constant `k` (src/opus_decoder.c:646-660; float build: `MULT16_32_P16` is `*` and `SATURATE` is
-  the identity, celt/arch.h:301,328 — no saturation in the float build).  Every other event `e` is interpreted by an
+  samples at `p` by the constant `k` (src/opus_decoder.c:654-668; float build: `MULT16_32_P16` is `*` and `SATURATE` is
+  the identity, celt/arch.h:319,358 — no saturation in the float build).  Every other event `e` is interpreted by an
   arbitrary function `dsp h e` of the memory, where `h` is the gain-free history of the call so far (so `dsp` may depend
   on everything the DSP state can depend on — but not on the gain: this is the FOOTPRINT ASSUMPTION `DspLocal`):
     * it changes only the samples of its own extent (`Ev.extent?`, the extent the skeleton logs and C01 ties to the code),
